@@ -130,6 +130,8 @@ type Op struct {
 	// consumer side (EReader): buffer sizes of successive Read calls (then 4096).
 	ReadBufs []int
 
+	Direct minify.Minifier // EDirect: the package minifier (shared option struct) called directly
+
 	// HTTP
 	ContentType   string
 	RequestURI    string
@@ -202,6 +204,9 @@ func (op *Op) Exec(y *sim.Point, m *minify.M) {
 	switch op.Entry {
 	case EPlain:
 		op.Err = m.Minify(op.MT, op.W, op.reader())
+		op.Out = op.W.Buf
+	case nEntries: // EDirect
+		op.Err = op.Direct.Minify(m, op.W, op.reader(), nil)
 		op.Out = op.W.Buf
 	case EMatch:
 		_, params, f := m.Match(op.MT)
